@@ -11,7 +11,7 @@ from sim.util import derive_rng, pick, wpick
 
 LEVEL = 'exploration'
 BUDGET = {
-    'quick': dict(runs=90, wall=600, timeout=400, det=3, minimise=30),
+    'quick': dict(runs=72, wall=600, timeout=400, det=3, minimise=30),
     'thorough': dict(runs=1200, wall=3300, timeout=900, det=8, minimise=120),
 }
 RULE = ('Each run = one (config, tree, replica count D, representation: full / '
@@ -29,12 +29,13 @@ ASSUMPTIONS = [
     'equality across replicas of one run is checked bitwise']
 EXPECTED_PROBES = ['N_mod_D_nonzero', 'rescale', 'pmap_crosscheck',
                    'sharded_declared_counts', 'quantized_replicas',
-                   'compressed_replicas', 'D_gt_8']
+                   'compressed_replicas', 'D_gt_8', 'fd_replicas']
 
 
 def generate(seed, idx, tier):
   rng = derive_rng(seed, 'C13', idx)
-  rep = wpick(rng, [('full', 4), ('quant', 3), ('lowrank', 2), ('sharded', 3)])
+  rep = wpick(rng, [('full', 4), ('quant', 3), ('lowrank', 2), ('sharded', 3),
+                    ('fd', 2)])
   x64 = rng.random() < 0.85
   cfg = ds_gen.gen_config(rng, emph={
       'eps': [(1e-1, 2), (1e-2, 2), (1e-3, 3), (1e-6, 2)], 'thr': [(0.1, 1)]})
@@ -44,7 +45,19 @@ def generate(seed, idx, tier):
   if rep == 'lowrank':
     cfg['compression_rank'] = pick(rng, [1, 2, -1])
     cfg['block_size'] = pick(rng, [8, 16])
+  if rep == 'fd':
+    # frequent-directions sketches carried in the previous preconditioner
+    x64 = False
+    cfg['compression_rank'] = pick(rng, [1, 2])
+    cfg['block_size'] = pick(rng, [8, 16])
+    cfg['frequent_directions'] = True
+    cfg['statistics_compute_steps'] = cfg['preconditioning_compute_steps'] = \
+        pick(rng, [1, 1, 2])
+    cfg['precondtioner_type'] = 1
+    cfg['average_grad'] = rng.random() < 0.3
   cfg = common.constrain(cfg, mode, quant, x64)
+  if rep == 'fd':
+    cfg['reuse_preconditioner'] = True
   tree = ds_gen.fix_tree_for_config(rng, ds_gen.gen_tree(rng), cfg)
   N = shp.tree_layout(tree, cfg)['n_stats']
   if mode == 'sharded':
@@ -113,6 +126,8 @@ def run(plan):
     ctx.probe('quantized_replicas')
   if rep == 'lowrank':
     ctx.probe('compressed_replicas')
+  if rep == 'fd':
+    ctx.probe('fd_replicas')
   durable = {}
   rescaled = 0
   x64 = bool(plan.get('x64', True))
@@ -236,6 +251,26 @@ def _compare_worlds(ctx, rep, t, D, va, vb, na, nb, upa, upb, cfg, uc, A,
             continue
         ctx.ev('gate_equal')
       # roots: tolerance grows with the conditioning of the statistic
+      if cfg.get('frequent_directions') and Xa.shape[0] != Xa.shape[1]:
+        # the statistics slot holds the gradient factor; compare the dense
+        # matrices the two packed sketches denote
+        da = ref.dense_from_packed(Xa, cfg['compression_rank'])
+        db = ref.dense_from_packed(Xb, cfg['compression_rank'])
+        if (da is None) != (db is None):
+          ctx.violate('d_invariant', rep, 'packed_flag_differs', tick=t, leaf=i,
+                      stat=j, D=D)
+          ctx.ev('d_invariant_root', 'violation')
+        elif da is not None:
+          sc_ = float(np.max(np.abs(db)))
+          df_ = float(np.max(np.abs(da - db)))
+          okf = df_ <= 2e-3 * max(sc_, 1e-300)
+          ctx.ev('d_invariant_root', 'ok' if okf else 'violation',
+                 df_ / (2e-3 * max(sc_, 1e-300)))
+          if not okf:
+            ctx.violate('d_invariant', rep, 'preconditioner_differs', tick=t,
+                        leaf=i, stat=j, D=D, diff=df_, scale=sc_,
+                        N_mod_D=va.n_stats % max(D, 1))
+        continue
       if not (np.all(np.isfinite(Sa)) and np.all(np.isfinite(Xb))):
         ctx.ev('d_invariant_root', 'vacuous')
         amp_bad = True
